@@ -18,7 +18,7 @@ from drivers.common import pmap
 
 LEVEL = "model_checking"
 
-DTYPES = ["float64", "float32", "int8", "uint8"]
+DTYPES = ["float64", "float32", "int8", "uint8", "int16", "int64"]
 ENCS = ["bool", "int", "float"]
 SCALES = ["affine", "exp"]
 APIS = ["tdc", "qvalues_from_scores", "_update_labels", "Linear._update_labels", "_update_labels(Series)"]
@@ -29,9 +29,14 @@ def render_scores(rank, desc, dtype, scale):
     rank = np.asarray(rank, dtype=np.int64)
     n = len(rank)
     base = rank if desc else (int(rank.max()) + 1 - rank)      # lower is better when ~desc
-    if dtype in ("int8", "uint8"):
-        off = -3 if dtype == "int8" else 0
-        return (base + off).astype(dtype)
+    if dtype in ("int8", "uint8", "int16", "int64"):
+        off = 0 if dtype == "uint8" else -3
+        v = (base + off).astype(np.int64)
+        if dtype != "uint8":
+            # any strictly increasing map is allowed: send the lowest value to the dtype's minimum (the one value
+            # whose negation wraps around in its own dtype)
+            v[v == v.min()] = np.iinfo(dtype).min
+        return v.astype(dtype)
     if scale == "affine":
         x = 0.37 * base - 1.5
     else:
@@ -131,14 +136,14 @@ def random_cases(rng, count, nmax):
 def make_case(idx, rank, tgt, desc, rng, full=None):
     n = len(rank)
     c = {"rank": list(rank), "tgt": list(tgt), "desc": desc}
-    c["dtype"] = DTYPES[idx % 4]
-    c["enc"] = ENCS[(idx // 4) % 3]
-    c["scale"] = SCALES[(idx // 12) % 2]
+    c["dtype"] = DTYPES[idx % 6]
+    c["enc"] = ENCS[(idx // 6) % 3]
+    c["scale"] = SCALES[(idx // 18) % 2]
     a = (idx // 2) % 7
     c["api"] = APIS[a] if a < 5 else "tdc"
     if c["api"] == "qvalues_from_scores":
         c["desc"] = True
-    if n > 100 and c["dtype"] in ("int8", "uint8"):
+    if n > 100 and c["dtype"] in ("int8", "uint8", "int16", "int64"):
         c["dtype"] = "float64"
     c["thr"] = list(THRS[(idx // 3) % len(THRS)])
     c["perm"] = [int(x) for x in rng.permutation(n)] if idx % 3 else list(range(n))
